@@ -67,6 +67,10 @@ type Exec struct {
 	ClockFree bool        // clock entry costs no deviation
 	MaxSteps  int
 	MaxIdle   int // max consecutive idle clock advances when nothing is enabled
+	// DelayBounded switches the cost model from preemption bounding (switching away from a runnable
+	// thread costs 1, switching at a blocking point is free) to delay bounding (Emmi, Qadeer, Rakamaric,
+	// POPL 2011): every departure from the deterministic default order costs 1, also at blocking points.
+	DelayBounded bool
 	idleTicks int
 }
 
@@ -263,6 +267,9 @@ func (e *Exec) entries() []entry {
 			if runningEnabled && w.name != e.running {
 				c++
 			}
+			if e.DelayBounded && w != en[0] {
+				c = 1
+			}
 			if a > 0 && w.costly {
 				c++
 			}
@@ -378,6 +385,10 @@ func (e *Exec) CanonLog() []string {
 		}
 		if evs[i].Thread != evs[j].Thread {
 			return evs[i].Thread < evs[j].Thread
+		}
+		if evs[i].Thread == "" && evs[i].Text != evs[j].Text {
+			// unnamed goroutines (never parked) that log in the same step are unordered natively
+			return evs[i].Text < evs[j].Text
 		}
 		return evs[i].Seq < evs[j].Seq
 	})
